@@ -21,7 +21,12 @@ CTXS = ["backend", "backend-with-capacity", "objects"]
 
 
 def nfiles():
-    return 3 if hlib.TIER == "thorough" else 2
+    # three files (thorough) for one dict class per strategy; two files elsewhere
+    if hlib.TIER == "thorough":
+        fam, which = parts()[hlib.PART % len(parts())]
+        if which == "dict" and not fam.attr:
+            return 3
+    return 2
 
 
 def parts():
@@ -525,6 +530,6 @@ FUNCTIONS = [
     "synced_collections.errors:BufferedError.__init__",
 ]
 BOUNDS = {"quick": {"classes": 8, "files": 2, "roles": ROLES, "outside_write_times": TIMES, "orders": "all first-access orders", "contexts": CTXS},
-          "thorough": {"classes": 8, "files": 3}}
+          "thorough": {"classes": 8, "files": "3 for BufferedJSONDict and MemoryBufferedJSONDict, 2 elsewhere", "single_file_programs": "4 tokens"}}
 ASSUMPTIONS = ["an outside write changes the file's size or mtime_ns (the library's own detection limit; the FS model's clock is strictly increasing and the real-mode writer bumps mtime if needed)", "finite schedule space explored exhaustively through the solver's path tree; decided schedules run natively"]
 OUTSIDE = ["more than 3 files", "more than 3 (4 thorough) tokens per single-file program", "capacity-forced flushes in the middle of the schedule (C15)"]
